@@ -204,7 +204,7 @@ class ExprMixin:
         # s[:-k] with k > 0 known on this path: end = max(0, len - k), encoded without the sign case split
         if e.lower is None and e.step is None and isinstance(e.upper, ast.UnaryOp) and isinstance(e.upper.op, ast.USub):
             k = self.eval(e.upper.operand)
-            if isinstance(k, SV) and k.ty == TInt and not self.feasible((k <= 0).t):
+            if isinstance(k, SV) and k.ty == TInt and not self.oracle(lambda: self.feasible((k <= 0).t)):
                 return slice(None, ("from_end", k), None)
             return slice(None, -k if not isinstance(k, SV) else -k, None)
         return slice(
